@@ -141,19 +141,24 @@ pub fn probe_string(ctx: &mut Ctx, f: Fmt, s: &str, family: &str) {
     // one string in six (and every replay) also goes through a re-created format; a replay first
     // puts the two other vocabularies into the slot, one after the other
     let recreated = family == "replay" || ctx.report.evaluations % 6 == 0;
+    // (the strings of one format come in long runs: another vocabulary is put into the slot first - one
+    // of the two others in the workload, each of them in turn in a replay)
+    let others: Vec<Fmt> = ALL_FMT.iter().copied().filter(|g| *g != f).collect();
+    let mut entries: Vec<(&str, Option<Fmt>)> = vec![("parse", None), ("parse_term", None)];
     if family == "replay" {
-        for g in ALL_FMT.iter().filter(|g| **g != f) {
-            warm_slot(*g);
+        for g in &others {
+            entries.push(("parse@recreated", Some(*g)));
+            entries.push(("parse_term@recreated", Some(*g)));
         }
     } else if recreated {
-        // (the strings of one format come in long runs: put another vocabulary into the slot first)
-        let g = ALL_FMT[(n_chars + ctx.report.evaluations as usize / 6) % 3];
-        if g != f || last_recreated().is_none() {
+        let g = others[(n_chars + ctx.report.evaluations as usize / 6) % 2];
+        entries.push(("parse@recreated", Some(g)));
+        entries.push(("parse_term@recreated", Some(g)));
+    }
+    for (entry, warm) in entries.iter().copied() {
+        if let Some(g) = warm {
             warm_slot(g);
         }
-    }
-    let entries: &[&str] = if recreated { &["parse", "parse_term", "parse@recreated", "parse_term@recreated"] } else { &["parse", "parse_term"] };
-    for entry in entries.iter().copied() {
         #[cfg(feature = "hooks")]
         narsese::verif_hooks::enable(true);
         let t0 = std::time::Instant::now();
